@@ -138,7 +138,8 @@ def parse_harness(res):
         it, err, nbgh, nred, flag, lhs, rhs, wgt, zam, var0, est, std, varz, clhs, crhs, c00 = t[:16]
         cvv = t[16] if len(t) > 16 else []
         alone = t[17] if len(t) > 17 else None
-        out.append({'alone': alone, 'it': it, 'err': err, 'nbgh': nbgh, 'nred': nred, 'flag': flag, 'lhs': lhs, 'rhs': rhs, 'wgt': wgt,
+        discs = t[18] if len(t) > 18 else []
+        out.append({'alone': alone, 'discs': discs, 'it': it, 'err': err, 'nbgh': nbgh, 'nred': nred, 'flag': flag, 'lhs': lhs, 'rhs': rhs, 'wgt': wgt,
                     'zam': zam, 'var0': var0, 'est': est, 'std': std, 'varz': varz, 'clhs': clhs, 'crhs': crhs, 'c00': c00, 'cvv': cvv})
     return drifts, ok, out
 
